@@ -59,7 +59,7 @@ func TestC06Reader(t *testing.T) {
 	rec := evid.New(t, "C06", "frames signed by the reference (SHA-256 formula) must be delivered under the key; v1 frames, unsigned frames, frames signed under a key differing in one bit, every single-bit flip of a signed frame and permuted signatures must yield parse errors and no frame; non-trivial = a rejected variant; distinct by hash of (key, stream)")
 	rec.Require("tamper-header", "tamper-payload", "tamper-checksum", "tamper-linkid", "tamper-timestamp", "tamper-signature", "v1", "unsigned", "other-key", "valid-delivered")
 	dpool := pool(t)
-	evid.Check(t, rec, evid.N(1500, 8000), func(t *rapid.T) {
+	evid.Check(t, rec, evid.N(4000, 12000), func(t *rapid.T) {
 		key := drawKey(t, "key")
 		var di *dialectInfo
 		var f ref.Frame
@@ -187,7 +187,7 @@ func TestC06Writers(t *testing.T) {
 	rec := evid.New(t, "C06", "frame.Writer.WriteMessage with OutKey and streamwriter.Writer with Key write generated message sequences; each emitted frame is parsed by the reference: signed flag, configured link id, timestamp within the wall-clock bracket of the call (10us units since 2015-01-01 UTC), signature == SHA-256 formula; non-trivial = every case; distinct by hash of emitted bytes")
 	rec.Require("frame.Writer", "streamwriter.Writer")
 	dpool := pool(t)
-	evid.Check(t, rec, evid.N(1500, 10000), func(t *rapid.T) {
+	evid.Check(t, rec, evid.N(6000, 30000), func(t *rapid.T) {
 		key := drawKey(t, "key")
 		di := drawDialect(t, dpool)
 		link := gen.Byte().Draw(t, "link")
